@@ -29,7 +29,8 @@
 (* that and ReqQuotientRule compares the two.                                *)
 EXTENDS NACOps
 
-CONSTANTS Cfgs
+CONSTANTS Cfgs,
+          Cells     \* set of [build, openmp, via, ddm, gv] recorded from the implementation ({} in model runs), see CellsExercised
 (* A configuration:  id, entry, S (supercell matrix), box,                   *)
 (*   nac  : BOOLEAN; Z : Born charges per atom (mixed lattice components,    *)
 (*          already symmetric under the space group, summing to zero),      *)
@@ -240,4 +241,18 @@ ReqEuler ==
 ReqDKSymmetric ==
   (pc = "at" /\ cfg.nac /\ x # Zero3) =>
      \A b \in I3 : \A j, jp \in 1..NAtoms(cr) : dK.dP[b][jp][j] = TransposeS(dK.dP[b][j][jp])
+-----------------------------------------------------------------------------
+(* The compiled derivative kernel has two loops over atom pairs (c/derivative_dynmat.c: an OpenMP loop and a     *)
+(* serial loop, chosen by the use_openmp flag of the dynamical-matrix object), in two builds of the extension   *)
+(* (with and without OpenMP).  Every cell of                                                                    *)
+(*     build in {"omp", "serial"}  x  via in {"phonopy" (flag = build's use_openmp()), "direct" (object from     *)
+(*     get_dynamical_matrix, flag False (its default) and True)}                                                 *)
+(* must be exercised, and in every cell dD/dq is the term-wise derivative of the lattice Fourier sum of this     *)
+(* specification (ddm) and the group velocity is <e|dD/dq|e> factor^2/2f (gv).                                    *)
+CellKeys ==
+  {<<b, "phonopy", b = "omp">> : b \in {"omp", "serial"}} \cup
+  {<<b, "direct", f>> : b \in {"omp", "serial"}, f \in BOOLEAN}
+CellsExercised == Cells = {} \/ \A k \in CellKeys : \E c \in Cells : <<c.build, c.via, c.openmp>> = k
+ImplCells == \A c \in Cells : c.ddm /\ c.gv
+InvCells == pc = pc => (CellsExercised /\ ImplCells)
 =============================================================================
